@@ -10,12 +10,18 @@ use crate::{
     vmsim::{Fault, VmSc},
 };
 
-pub const I64_POOL: [i64; 22] = [
+pub const I64_POOL: [i64; 32] = [
     i64::MIN,
     i64::MIN + 1,
+    -4_000_000_000,
+    -3_500_000_000,
     -3_037_000_500,
+    -3_037_000_499,
     -(1 << 32),
+    -(u32::MAX as i64),
+    -(1 << 31) - 1,
     -(1 << 31),
+    -(i32::MAX as i64),
     -3,
     -2,
     -1,
@@ -26,11 +32,15 @@ pub const I64_POOL: [i64; 22] = [
     7,
     63,
     64,
+    65_536,
+    i32::MAX as i64,
     1 << 31,
+    (1 << 31) + 1,
+    u32::MAX as i64,
     1 << 32,
     3_037_000_499,
     3_037_000_500,
-    u32::MAX as i64 + 1,
+    3_500_000_000,
     i64::MAX - 1,
     i64::MAX,
 ];
@@ -332,7 +342,7 @@ pub fn gen_scenario(g: &mut Xo, bias: Bias) -> VmSc {
     let limit = if wrap > 0 && limit < wrap && g.coin() { usize::MAX } else { limit };
 
     VmSc {
-        init: VmInit { caps, int, float, bool, program, inputs: sw.names, limit, wrap },
+        init: VmInit { caps, int, float, bool, program, inputs: sw.names, limit, wrap, giant: 0 },
         faults,
         limits,
         rebuild_at,
@@ -367,6 +377,64 @@ pub fn gen_very_long(g: &mut Xo, steps: usize) -> VmSc {
     sc.init.limit = steps;
     sc.limits = vec![steps];
     sc
+}
+
+/// ONE giant block (65 536 .. 300 000 children, stored compactly: `VmInit::giant`): sizes at which a block-wise
+/// or 16-bit shortcut in unfolding a block, in the exec stack or in the run loop would first matter. Children
+/// are literal pushes (the integer pushed is the child's position, so the order of execution shows in the final
+/// stack), no-ops and small nested blocks; the capacities either hold everything, or the int stack overflows
+/// part-way, or the block itself does not fit; the step limit is unbounded or falls inside the block.
+pub fn gen_giant(g: &mut Xo) -> VmSc {
+    let n = match g.below(6) {
+        0 => 65_536,
+        1 => 65_537,
+        2 => 131_073,
+        _ => g.log_uniform(65_536, 300_000),
+    };
+    let mut pattern: Vec<Prog> = vec![Prog::I(Ins::PushInt(0))];
+    for _ in 0..g.urange(0, 6) {
+        pattern.push(match g.below(6) {
+            0 => Prog::I(Ins::Exec(ExecOp::Noop)),
+            1 => Prog::I(Ins::PushBool(g.coin())),
+            2 => Prog::B(vec![Prog::I(Ins::PushInt(-1)), Prog::I(Ins::Pop(Ty::Int))]),
+            3 => Prog::I(Ins::Pop(Ty::Bool)),
+            _ => Prog::I(Ins::PushInt(0)),
+        });
+    }
+    let int_cap = match g.below(4) {
+        0 => g.urange(1, n), // the int stack overflows part-way through the block
+        1 => n,
+        _ => usize::MAX,
+    };
+    let exec_cap = match g.below(5) {
+        0 => n - 1 - g.urange(0, 2), // the block's children do not fit
+        1 => n,
+        2 => n + g.urange(1, 70_000),
+        _ => usize::MAX,
+    };
+    let total = 4 * n + 100;
+    let limit = match g.below(4) {
+        0 => g.urange(1, n),
+        1 => n + 1,
+        _ => usize::MAX,
+    };
+    VmSc {
+        init: VmInit {
+            caps: Caps { exec: exec_cap, int: int_cap, float: 4, bool: if g.coin() { usize::MAX } else { g.urange(1, n) } },
+            int: Vec::new(),
+            float: Vec::new(),
+            bool: Vec::new(),
+            program: pattern,
+            inputs: Vec::new(),
+            limit,
+            wrap: 0,
+            giant: n,
+        },
+        faults: Vec::new(),
+        limits: vec![limit.min(total)],
+        rebuild_at: None,
+        long: true,
+    }
 }
 
 /// A long execution: `[exec.dup, [body.., exec.dup]]` re-creates its own block forever, so the run lasts
